@@ -104,6 +104,7 @@ func c19Run(e *domEnv, sc c19Scenario, point string) (obs c19Obs, fail string) {
 	w := populatedOpts(e, oldOpts)
 	sc.setup(e, w)
 	H := w.Height + 2
+	w.AsWrittenByPredecessor()
 	if err := w.App.UpgradeKeeper.ScheduleUpgrade(w.Ctx(), upgradetypes.Plan{Name: c19Plan, Height: H}); err != nil {
 		return obs, "HARNESS: cannot schedule upgrade: " + err.Error()
 	}
